@@ -71,6 +71,16 @@ CLAIMED = {
    note="Summation over calls (M-sum), amortisation of repeated stack growth (M-amort) and the growth policy of append (A-growth) are unchecked assumptions; handler allocations are not counted in the caller; []interface{} appends of the ValueReader are not modelled. The findings are not repaired because an honest fix is a redesign of the size-hint scheme (F2/F3) or changes the allocation strategy (F4).",
    tech="contract-based deductive verification: ghost resource counter with per-call and per-event bounds, cut-point VCs over go/ssa, z3/cvc5; known-findings file",
    ref="DESIGN.md sections 6 (C20) and 7"),
+ "C04": dict(
+   text="Proof of the two parts of the custom float parser that a contract can pin to a reference: (a) every row of internal/fp's detailedPowersOfTen (696 x 2 words), powersOfTen and float64pow10 tables is a ground obligation: equal to the mathematical definition (128-bit truncated 10^q mantissa computed with exact big-integer arithmetic, exactly representable float64 powers) and equal to the pinned reference copy of Go 1.23.5 strconv; (b) the loop-free kernels eiselLemire64 and atof64exact are proved equivalent, for every (mantissa, exponent, sign) argument, to the pinned strconv functions of the same name by running both SSA bodies symbolically on the same arguments and proving all results equal (bits.Mul64, LeadingZeros64, Float64frombits with exact definitions; float multiplication/division as uninterpreted functions applied to equal arguments).",
+   note="Relative proof: correct rounding of strconv itself is assumed (A-strconv), and readFloat (digit scanning, 19-digit truncation), the decimal slow path and the glue in ParseJSONFloatPrefix / ReadFloat64 are NOT under contract - a defect there is invisible to this check (stated in evidence.proved_subset). The reference copy is /verif/ref/strconv (verbatim files + SHA256SUMS).",
+   tech="contract-based deductive verification: ground table obligations + relational equivalence of loop-free go/ssa bodies with a pinned reference, z3/cvc5",
+   ref="DESIGN.md section 6 (C04)"),
+ "C11": dict(
+   text="Proof for every input: if the specification accepts (which by the C02 contract, re-proved inside this check, is exactly when SkipValue succeeds, with p the spec's end offset) then skipValueFast/SkipValueFast return a nil error and the same end offset. The real skipValueFast (65 cut points x 256 bytes) is simulated against the master transducer under the hypothesis accepts(data): its stack height is related to the number of open frames of the same kind as the outermost container (two counters added to the spec run), its return states to the kind of the outermost container, strings are stepped over in lock step with the spec's string states, and the nesting limit of 10000 cannot trigger because the same-kind depth is bounded by the total depth.",
+   note="The counters' meaning (number of array/object frames on the spec stack, at least 1 for the kind of the bottom frame) is a lemma about the specification proved by induction (seven base/step obligations with explicit unfoldings). Nothing is claimed on malformed input (C10 covers safety there).",
+   tech="contract-based deductive verification: simulation of the generated machine against a specification transducer under an acceptance hypothesis, cut-point VCs over go/ssa, inductive spec lemmas, z3/cvc5",
+   ref="DESIGN.md section 6 (C11)"),
  "C12": dict(
    text="Proof for all ten Decode functions and nullOrBust, for every input and every prior target value: reader succeeds => target = reader's value, same offset, nil error; reader fails and ReadNull succeeds => target unchanged, offset of null, nil error; otherwise target unchanged and non-nil error. Stated over the readers' result functions, so it is exactly 'behaves as the corresponding reader'.",
    note="Relative to: each Read function is a deterministic function of the input bytes (result functions rok/rval/rp). DecodeString's stored value is not compared (strings are not scalars in the VC language).",
@@ -80,8 +90,8 @@ CLAIMED = {
 
 NOT_BUILT = "in reach per DESIGN.md section 6 but its check is not built yet - not claimed"
 NA = {
- "C03": NOT_BUILT, "C04": NOT_BUILT,
- "C08": NOT_BUILT, "C11": NOT_BUILT,
+ "C03": NOT_BUILT,
+ "C08": NOT_BUILT,
  "C15": "needs a full functional contract of generic decoding for arbitrary prior reader state (incl. what sync.Pool.Get may return) and ownership of maps/slices reachable through interface values; not expressible in a quantifier-free bit-vector/array VC generator without inductive datatypes or separation logic (DESIGN.md section 6, C15)",
  "C17": "the functional content is utf8.DecodeRune / string([]rune) / string(rune) runtime intrinsics whose semantics would have to be assumed in exactly the form of the property, and the statement is sequence-valued and, for the slice/map helpers, an induction over interface-typed trees; no contract within reach decides it (DESIGN.md section 6, C17)",
 }
